@@ -514,7 +514,7 @@ impl Engine for DfEngine {
         "C16"
     }
     fn budget(&self) -> (u64, u64) {
-        (30_000, 300)
+        (250_000, 300)
     }
 
     fn generate(&self, seed: u64, _tier: Tier) -> Case<DfCfg, DfOp> {
